@@ -59,7 +59,7 @@ def gen_one(r, i, tier):
     for s_ in gen.walk(spec):
         if "q" in s_ and s_["q"].get("form") == "def" and r.random() < 0.6 and s_["q"]["e"][0] != "vec":
             s_["q"]["form"] = "defg"          # a def that reads its constants from module globals
-            if r.random() < 0.5:
+            if r.random() < 0.5 and all(f_ in (0, 1, 2) for f_ in gen.fields_of(s_["q"]["e"])):
                 # ... one of them falsy (0.0): it must travel with the pickled function all the same
                 s_["q"]["e"] = ["+", s_["q"]["e"], ["c", 0.0]]
     try:
